@@ -995,6 +995,16 @@ func (m *Model) ruleVIEW(r *Results) {
 					})
 				}
 				rv, _ := m.resolve(b.V, bfr)
+				// the mark is handed to the function that holds the update by its caller, which read it
+				if p, isP := stripConv(rv).(*ssa.Parameter); isP && p.Parent().Parent() == nil {
+					callers := m.staticCallersOf(p.Parent())
+					if len(callers) == 1 {
+						if call, isCall := callers[0].(*ssa.Call); isCall {
+							cfr := m.closureFrame(call.Parent()).inline(call, p.Parent())
+							rv, _ = m.resolve(p, cfr)
+						}
+					}
+				}
 				if ex, ok := rv.(*ssa.Extract); ok {
 					if call, ok := ex.Tuple.(*ssa.Call); ok {
 						callee := call.Common().StaticCallee()
@@ -1110,8 +1120,10 @@ func (m *Model) ruleVIEW(r *Results) {
 	// design-document replacement: delete precedes inserts, in one transaction
 	for _, tc := range m.txnClosures() {
 		var dd, di *SQLSite
+		ext := m.reachableLocal(tc.Fn)
 		for _, s := range m.Sites {
-			if s.Fn != tc.Fn {
+			// in the closure itself, or in a helper it calls (`c.deleteDDocRow(txn, name)`)
+			if s.Fn != tc.Fn && !(ext[s.Fn] && s.Fn.Parent() == nil && m.anchorIn(tc.Fn, s) != nil) {
 				continue
 			}
 			for _, v := range s.Variants {
@@ -1125,11 +1137,33 @@ func (m *Model) ruleVIEW(r *Results) {
 				}
 			}
 		}
-		if di != nil && dd != nil {
-			m.ddocUnchangedShortcut(r, rule, tc.Fn, dd)
+		var da, ia ssa.Instruction
+		if dd != nil {
+			da = m.anchorIn(tc.Fn, dd)
 		}
 		if di != nil {
-			r.check(dd != nil && instrReachable(dd.Call, di.Call, nil) && (dd.Call.Block() == di.Call.Block() || dd.Call.Block().Dominates(di.Call.Block())), rule, m.declName(tc.Fn)+" / replace design document", m.instrPos(di.Call), "the old design-document row (whose cascade removes its views and index rows) is deleted before the new one is inserted, in the same transaction", "a design document is inserted without first deleting the old row in the same transaction: old views and their index rows survive")
+			ia = m.anchorIn(tc.Fn, di)
+		}
+		// both inside one helper (the closure's body was moved into a named method): decide there
+		scope := tc.Fn
+		for depth := 0; depth < 3 && da != nil && da == ia; depth++ {
+			call, ok := da.(ssa.CallInstruction)
+			if !ok {
+				break
+			}
+			h := call.Common().StaticCallee()
+			if h == nil || !m.inPkg(h) {
+				break
+			}
+			scope = h
+			da, ia = m.anchorIn(h, dd), m.anchorIn(h, di)
+		}
+		_ = scope
+		if di != nil && dd != nil && da != nil && da.Parent() == tc.Fn {
+			m.ddocUnchangedShortcut(r, rule, tc.Fn, da)
+		}
+		if di != nil {
+			r.check(da != nil && ia != nil && instrReachable(da, ia, nil) && (da.Block() == ia.Block() || da.Block().Dominates(ia.Block())), rule, m.declName(tc.Fn)+" / replace design document", m.instrPos(di.Call), "the old design-document row (whose cascade removes its views and index rows) is deleted before the new one is inserted, in the same transaction", "a design document is inserted without first deleting the old row in the same transaction: old views and their index rows survive")
 		}
 	}
 	r.floor(rule, 8)
@@ -1785,7 +1819,7 @@ func (m *Model) pulledValue(v ssa.Value) bool {
 // delete-and-reinsert ("unchanged") must be guarded by an equality that covers everything a view
 // definition persists (map AND reduce source): reflect.DeepEqual on the documents / view maps,
 // or a helper that reads every ViewDef field the INSERT binds.
-func (m *Model) ddocUnchangedShortcut(r *Results, rule string, K *ssa.Function, dd *SQLSite) {
+func (m *Model) ddocUnchangedShortcut(r *Results, rule string, K *ssa.Function, ddAnchor ssa.Instruction) {
 	// the ViewDef fields the views INSERT persists
 	persisted := map[string]bool{}
 	for _, s := range m.Sites {
@@ -1870,7 +1904,7 @@ func (m *Model) ddocUnchangedShortcut(r *Results, rule string, K *ssa.Function, 
 		if len(ret.Results) == 0 || !isNilConst(ret.Results[len(ret.Results)-1]) {
 			continue
 		}
-		if instrReachable(dd.Call, ret, nil) {
+		if instrReachable(ddAnchor, ret, nil) {
 			continue // after the delete: the normal path
 		}
 		n++
@@ -2060,4 +2094,22 @@ func (m *Model) versCutIn(g *ssa.Function, fr *frame, equalSide, exactOnly bool)
 		}
 	}
 	return c
+}
+
+// anchorIn: the instruction of K at which statement site s is executed: the site's own call, or
+// the call of the helper (of K's extent) that holds it.
+func (m *Model) anchorIn(K *ssa.Function, s *SQLSite) ssa.Instruction {
+	if s.Fn == K {
+		return s.Call
+	}
+	var out ssa.Instruction
+	m.eachCall(K, func(c ssa.CallInstruction) {
+		if out != nil {
+			return
+		}
+		if g := c.Common().StaticCallee(); g != nil && m.inPkg(g) && g != m.A.TxnRunner && m.reachableLocal(g)[s.Fn] {
+			out = c
+		}
+	})
+	return out
 }
